@@ -51,6 +51,9 @@ def gen_cases(tier, seed):
                         yield dict(base, sel='lookup', limit=None, fail=list(fail), exc=exc, cons='drain')
                 for limit in (None, 1, 2):
                     yield dict(base, sel='lookup', limit=limit, fail=[], exc='msg', cons='drain')
+                if n >= 2:   # ONE studio object played twice; its explicit id list is changed IN PLACE between the two plays
+                    for drop in range(n):
+                        yield dict(base, sel='ids', perm=list(range(n)), fail=[], exc='msg', cons='drain', second_play_without=drop)
                 for bad in range(n):   # the extractor of the category fails for ONE recording (results kept in the comparison: extraction also runs in the studio's process)
                     yield dict(base, sel='ids', perm=list(range(n)), fail=[], exc='msg', cons='drain', bad_extract=bad)
                     yield dict(base, sel='lookup', limit=None, fail=[], exc='msg', cons='drain', bad_extract=bad)
@@ -144,6 +147,19 @@ def _run(case, box):
         exp_cats = order
         exp_ids = {c: by_cat[c] for c in order}
     viols = []
+    if case.get('second_play_without') is not None:
+        try:
+            first = studio.play()
+            for v in first.values():
+                if not isinstance(v, Exception):
+                    list(v)
+        except Exception as e:
+            return dict(viol=[viol('play-raised:%s' % type(e).__name__, 'first play() raised', 'results', repr(e))], obs='raised')
+        journal[:] = []
+        dropped = sel[case['second_play_without']]
+        sel.remove(dropped)          # same list object, edited in place
+        exp_cats = sorted({c for c in CATS if any(r in by_cat[c] for r in sel)})
+        exp_ids = {c: [rid for rid in sel if rid in by_cat[c]] for c in exp_cats}
     try:
         result = studio.play()
     except Exception as e:
